@@ -388,8 +388,11 @@ def _clean(d):
             os.unlink(p)
 
 
-def run_one(world, faults, log=None, out=None):
-    """Execute update_file once.  Returns a result dict; raises Violation."""
+def run_one(world, faults, log=None, out=None, transport="sim", judge=True):
+    """Execute update_file once.  Returns a result dict; raises Violation.
+
+    transport="file" (fidelity self-test only) materialises the repository in a real
+    directory and fetches it through urllib's own file:// handler instead of the stub."""
     import debian.debian_support as ds
     net = simnet.install()
     root = _scratch()
@@ -414,6 +417,19 @@ def run_one(world, faults, log=None, out=None):
         os.close(fd)
     files, fetch_faults, info = build_repo(world, faults)
     net.reset(files, fetch_faults)
+    remote = REMOTE
+    if transport == "file":
+        rdir = os.path.join(root, "remote")
+        shutil.rmtree(rdir, True)
+        for url, data in files.items():
+            if fetch_faults.get(url, ("",))[0] == "missing":
+                continue
+            path = os.path.join(rdir, url[len("sim://"):])
+            os.makedirs(os.path.dirname(path), exist_ok=True)
+            fd = os.open(path, os.O_WRONLY | os.O_CREAT | os.O_TRUNC, 0o644)
+            os.write(fd, data)
+            os.close(fd)
+        remote = "file://" + os.path.join(rdir, REMOTE[len("sim://"):])
     plan = FaultPlan([dict(f) for f in faults if f.get("site") == "fs"])
     crash = {}
 
@@ -431,7 +447,7 @@ def run_one(world, faults, log=None, out=None):
     try:
         with fs, contextlib.redirect_stdout(sink):
             try:
-                ret = ds.update_file(REMOTE, local_path, verbose=world.get("verbose", False))
+                ret = ds.update_file(remote, local_path, verbose=world.get("verbose", False))
             except Exception as e:   # pylint: disable=broad-except
                 exc = e
     finally:
@@ -464,7 +480,8 @@ def run_one(world, faults, log=None, out=None):
     if log is not None:
         log.add("exec", faults, res["exc"], res["ret_ok"], res["after"], leftovers, tmp_left,
                 fetched, fired, res["journal"])
-    _judge(world, faults, res, before, after, current, exc)
+    if judge:
+        _judge(world, faults, res, before, after, current, exc)
     return res
 
 
